@@ -68,9 +68,10 @@ def js_parse_int(*args):
     if end == 0:
         return float("nan")
     digits = text[:end].lstrip("0") or "0"
-    if len(digits) > 40:
-        # Only the leading digits can matter for a double (and int() limits its input length)
-        value = int(digits[:40], radix) * radix ** (len(digits) - 40)
+    if len(digits) > 400:
+        # Only the leading digits can matter for a double (400 digits are more than enough
+        # bits in every radix), and int() limits the length of its input
+        value = int(digits[:400], radix) * radix ** (len(digits) - 400)
     else:
         value = int(digits, radix)
     if value == 0 and sign < 0:
